@@ -366,6 +366,32 @@ pub fn run(ctx: &Ctx) -> (Outcome, String, Option<bool>) {
     });
     out.absorb(o);
 
+    // (a'') exponentiation grid: every immediate k x exponents of k, k+1, k+2 significant bits (k+1 is the most that
+    // `exp k` admits) in four bit patterns x eight bases
+    let o = run_enumeration(ctx, "exp-grid", (0u32..256).collect::<Vec<u32>>(), |k, st, _| {
+        let mut bases: Vec<[u8; 32]> = [0u128, 1, 2, 3, 5, (1 << 127) + 1].iter().map(|v| be(*v)).collect();
+        bases.push([0xff; 32]);
+        let mut odd = [0u8; 32];
+        odd[0] = 0x80;
+        odd[31] = 0x01;
+        bases.push(odd);
+        for l in [*k, *k + 1, *k + 2] {
+            if l > 256 {
+                continue;
+            }
+            for pat in 0..4u8 {
+                let e = crate::vmgen::exp_operand(l, pat, (*k as u64) << 8 | pat as u64);
+                for b in bases.iter() {
+                    let ops = vec![ROp::PushI(e), ROp::PushI(*b), ROp::Exp(*k as u8)];
+                    check_program(&ops, &[], st)?;
+                    st.class(if l <= *k + 1 { "exp-grid-exponent-within-limit" } else { "exp-grid-exponent-too-wide" });
+                }
+            }
+        }
+        Ok(())
+    });
+    out.absorb(o);
+
     // (b) type-aware random programs on random heaps
     let o = run_sharded(
         ctx,
